@@ -316,7 +316,8 @@ def run(pid, tier, seed, args, t0):
     ledger_path = os.path.join(HERE, 'ledger', pid + '.json')
     # the ledger pins the property-relevant obligations (posts, raises, tables); frame / invariant / callee-precondition
     # obligations may legitimately come and go with harmless edits
-    all_names = sorted(n for n in name_verdict if '/post[' in n or '/raises[' in n or '/expost[' in n) + \
+    # (raises[...] names depend on how exceptional outcomes were merged and change with harmless restructurings: not pinned)
+    all_names = sorted(n for n in name_verdict if '/post[' in n or '/expost[' in n) + \
         sorted(t['name'] for t in table_results)
     all_names = sorted(set(site_free(n) for n in all_names))
     if args.update_ledger:
@@ -327,7 +328,7 @@ def run(pid, tier, seed, args, t0):
     if os.path.exists(ledger_path):
         with open(ledger_path) as f:
             led = json.load(f)
-        missing = sorted(set(site_free(n) for n in led['obligations']) - set(all_names))
+        missing = sorted(set(site_free(n) for n in led['obligations'] if '/raises[' not in n) - set(all_names))
         for m in missing:
             undecided.append('obligation %s of the ledger was not generated (function restructured or clause unreachable)' % m)
     # ---- verdicts
